@@ -143,19 +143,47 @@ Print Assumptions C19_other_slots_untouched.
 (* ---- queries terminate ---- *)
 
 (* a started query (as start_query leaves it), no datagram for its port and id, polls never later
-   than poll_at says (other queries, other datagrams, new queries interleaved at will): at any
-   poll at or after  first poll + #servers * RETRANSMIT_TIMEOUT  the query has Failed.
-   #servers = the configured servers, or the two mDNS groups for a .local name. *)
-Theorem C19_query_terminates : forall cfg evs s now0 h pq t0 t_last,
+   than poll_at says; other queries, other datagrams, new queries, update_servers and
+   set_hop_limit interleaved at will.  With N a bound on the length of every server list in force
+   during the run (the two mDNS groups for a .local name): at any poll at or after
+   first poll + N * RETRANSMIT_TIMEOUT  the query has Failed. *)
+Theorem C19_query_terminates : forall cfg evs s now0 h pq N t0 t_last,
   cfg_ok cfg -> sock_ok cfg s ->
+  nth_error (ds_queries s) h = Some (Some (QPending pq)) ->
+  pq_timeout_at pq = None -> pq_server_idx pq = 0 ->
+  dns_nsrv (pq_mdns pq) (ds_servers s) <= N ->
+  Forall (dns_servers_le cfg (pq_mdns pq) N) evs ->
+  dns_sched cfg h (pq_port pq) (pq_txid pq) s now0 evs ->
+  dns_ghost None now0 evs = (Some t0, t_last) ->
+  t0 + N * dns_RETRANSMIT_TIMEOUT <= t_last ->
+  nth_error (ds_queries (dns_run cfg s evs)) h = Some (Some QFailure).
+Proof. exact dns_query_terminates. Qed.
+Print Assumptions C19_query_terminates.
+
+(* new / update_servers truncate to DNS_MAX_SERVER_COUNT, so after ANY update_servers calls the
+   budget is  (2 for .local, else DNS_MAX_SERVER_COUNT) * RETRANSMIT_TIMEOUT *)
+Theorem C19_query_terminates_any_servers : forall cfg evs s now0 h pq t0 t_last,
+  cfg_ok cfg -> sock_ok cfg s -> 0 <= c_max_servers cfg ->
+  Z.of_nat (length (ds_servers s)) <= c_max_servers cfg ->
   nth_error (ds_queries s) h = Some (Some (QPending pq)) ->
   pq_timeout_at pq = None -> pq_server_idx pq = 0 ->
   dns_sched cfg h (pq_port pq) (pq_txid pq) s now0 evs ->
   dns_ghost None now0 evs = (Some t0, t_last) ->
-  t0 + Z.of_nat (length (dns_eff_servers (ds_servers s) pq)) * dns_RETRANSMIT_TIMEOUT <= t_last ->
+  t0 + dns_max_nsrv cfg (pq_mdns pq) * dns_RETRANSMIT_TIMEOUT <= t_last ->
   nth_error (ds_queries (dns_run cfg s evs)) h = Some (Some QFailure).
-Proof. exact dns_query_terminates. Qed.
-Print Assumptions C19_query_terminates.
+Proof. exact dns_query_terminates_any_servers. Qed.
+Print Assumptions C19_query_terminates_any_servers.
+
+(* hop limit of every transmitted query: 64 or the value given to set_hop_limit, never 0 *)
+Theorem C19_hop_limit_legal : forall cfg servers n owned evs,
+  Forall ev_ok evs ->
+  1 <= dns_tx_hop (dns_run cfg (dns_new cfg servers n owned) evs) <= 255.
+Proof. exact dns_reachable_hop_legal. Qed.
+Print Assumptions C19_hop_limit_legal.
+
+Theorem C19_set_hop_limit_zero_panics : forall s, dns_set_hop_limit s (Some 0) = (s, Panic).
+Proof. exact dns_set_hop_limit_zero. Qed.
+Print Assumptions C19_set_hop_limit_zero_panics.
 
 Theorem C19_start_query_fresh : forall cfg s name t txid port s' h,
   dns_start_query cfg s name t txid port = (s', Ok h) ->
@@ -186,7 +214,7 @@ Theorem C19_poll_is_one_dispatch_each : forall cfg s now,
   cfg_ok cfg -> sock_ok cfg s ->
   exists txs,
     dns_poll cfg s now =
-    Ok (mkSock (ds_servers s) (map (dns_done_slot cfg (ds_servers s) now) (ds_queries s)) (ds_owned s), txs, false).
+    Ok (mkSock (ds_servers s) (map (dns_done_slot cfg (ds_servers s) now) (ds_queries s)) (ds_owned s) (ds_hop_limit s), txs, false).
 Proof. exact dns_poll_spec. Qed.
 Print Assumptions C19_poll_is_one_dispatch_each.
 
@@ -246,3 +274,18 @@ Theorem C19_example :
      [EvPoll 1000000; EvPoll 3000000; EvPoll 7000000; EvPoll 10000000])) 0 = Some (Some QFailure).
 Proof. exact c19_example. Qed.
 Print Assumptions C19_example.
+
+Theorem C19_example_servers :
+  nth_error (ds_queries (dns_run c19_cfg c19_started [EvServers []; EvPoll 1000000])) 0 = Some (Some QFailure) /\
+  (exists pl, snd (dns_step c19_cfg (dns_run c19_cfg c19_started [EvServers [[10; 0; 0; 11]]]) (EvPoll 1000000))
+              = ObPoll [mkTx [10; 0; 0; 11] 50000 53 pl] false) /\
+  dns_run_obs c19_cfg c19_started [EvServers [[10; 0; 0; 11]]; EvPoll 1000000; EvPoll 3000000; EvPoll 7000000; EvPoll 10000000]
+    = [Some 1000000; Some 3000000; Some 7000000; Some 10000000; None] /\
+  dns_run c19_cfg c19_started [EvServers [[10; 0; 0; 11]]; EvRsp c19_server 53 50000 wdns_example_response]
+    = dns_run c19_cfg c19_started [EvServers [[10; 0; 0; 11]]] /\
+  ds_servers (dns_run c19_cfg c19_started [EvServers [[10; 0; 0; 11]; [10; 0; 0; 12]]]) = [[10; 0; 0; 11]] /\
+  dns_step c19_cfg c19_started (EvHop (Some 0)) = (c19_started, ObHop Panic) /\
+  dns_tx_hop c19_started = 64 /\
+  dns_tx_hop (dns_run c19_cfg c19_started [EvHop (Some 7)]) = 7.
+Proof. exact c19_example_servers. Qed.
+Print Assumptions C19_example_servers.
